@@ -51,7 +51,7 @@ inline std::string gen_scenario(const unsigned char *data, size_t size, const st
   // ---- options
   std::string flags; auto addflag = [&](const char *f) { if (!flags.empty()) flags += ","; flags += f; };
   bool edns = !c.chance(1, 4); if (edns || pf.cookies) addflag("EDNS");
-  if ((c.chance(1, 6) || (prop == "C20" && c.chance(1, 2))) && prop != "C17") addflag("USEVC");
+  if ((c.chance(1, 6) || (prop == "C20" && c.chance(1, 2))) && prop != "C17" && prop != "C09") addflag("USEVC");
   if (c.chance(1, 8)) addflag("IGNTC");
   if (c.chance(1, 4)) addflag("STAYOPEN");
   if (c.chance(1, 5)) addflag("DNS0x20");
